@@ -789,6 +789,33 @@ fn corrupt(sink: &mut Sink, o: &Opts) {
         let members_at = al(classes_at + nc * 28);
         let by_at = al(members_at + nm * 36);
         let str_at = al(by_at + np * 36);
+        // F-field, exhaustive part: every 32-bit field of every record of small files set to every
+        // boundary value, one edit at a time; probed with lines below every start line and the maximum
+        if nc * 7 + (nm + np) * 9 <= 80 {
+            let fixed: Vec<(String, String, usize, String)> = queries
+                .iter()
+                .take(4)
+                .flat_map(|(c, m, _, p)| [0usize, 1, usize::MAX].into_iter().map(move |l| (c.clone(), m.clone(), l, p.clone())))
+                .collect();
+            let total_fields = nc * 7 + nm * 9 + np * 9;
+            for f in 0..total_fields {
+                let off = if f < nc * 7 { classes_at + f * 4 } else if f < nc * 7 + nm * 9 { members_at + (f - nc * 7) * 4 } else { by_at + (f - nc * 7 - nm * 9) * 4 };
+                let cur = u32::from_le_bytes(good[off..off + 4].try_into().unwrap());
+                for val in [0u32, 1, 2, nm as u32, (nm as u32).wrapping_sub(1), ns as u32, 1 << 31, u32::MAX - 1, u32::MAX] {
+                    if val == cur {
+                        continue;
+                    }
+                    let mut b = good.clone();
+                    b[off..off + 4].copy_from_slice(&val.to_le_bytes());
+                    let buf = crate::handles::Aligned::new(&b);
+                    let calls = probe_cache(buf.bytes(), &fixed);
+                    // only failing probes are kept verbatim; passing ones are summarised to keep the trace small
+                    let failing: Vec<Value> = calls.iter().filter(|c| c["status"] != "ok" || c["provenance_ok"] != true).cloned().collect();
+                    let shown = if failing.is_empty() { calls.into_iter().take(1).collect() } else { failing };
+                    sink.emit(json!({"t": "corrupt", "what": format!("field@{off}={val}"), "parse": parse_outcome(&b), "calls": shown, "len": b.len()}));
+                }
+            }
+        }
         let versions = 12;
         for v in 0..versions {
             let mut b = good.clone();
@@ -917,6 +944,21 @@ fn uuids(sink: &mut Sink, o: &Opts) {
     let mut rng = Rng::new(o.seed);
     let max: usize = opt_value(o, "--max").map(|s| s.parse().unwrap()).unwrap_or(4096);
     let mut inputs: Vec<Vec<u8>> = vec![vec![], b"a".to_vec(), b"a -> b:\n".to_vec(), b"a -> b:\r\n".to_vec(), vec![0u8; 55], vec![0xffu8; 56], vec![7u8; 64], vec![9u8; 119], vec![1u8; 120]];
+    // the identifier depends on nothing but the bytes: probes for every normalisation a parser might
+    // be tempted to apply (BOM, leading / trailing white space and terminators, NUL, case, invalid UTF-8)
+    for base in [&b"a -> b:\n    void m() -> n\n"[..], b"x", b""] {
+        for pre in [&b"\xef\xbb\xbf"[..], b"\n", b"\r\n", b" ", b"\t", b"\0", b"#", b"\xff\xfe", b"\xfe\xff"] {
+            inputs.push([pre, base].concat());
+        }
+        for suf in [&b"\n"[..], b"\r\n", b"\r", b" ", b"\0", b"\n\n", b"\x1a", b"\xff"] {
+            inputs.push([base, suf].concat());
+        }
+    }
+    inputs.push(b"A -> B:\n".to_vec());
+    inputs.push(b"a  ->  b:\n".to_vec());
+    for b in 0..=255u8 {
+        inputs.push(vec![b]);
+    }
     for f in &o.files {
         let src = std::fs::read(f).expect("corpus file");
         let cut = &src[..src.len().min(max)];
@@ -972,12 +1014,15 @@ fn threads(sink: &mut Sink, o: &Opts) {
         let qs: Vec<Value> = (0..per).map(|_| gen::query(&mut rng, &uni, "all")).collect();
         let parsed: Vec<OwnedQuery> = qs.iter().map(parse_query).collect();
         let nthreads = rng.range(2, 16);
-        // randomised batch split: every query goes to 1..3 threads
+        // randomised batches: every thread gets every query, each in its own random order, so that
+        // different threads hit different classes at the same time
         let mut batches: Vec<Vec<usize>> = vec![vec![]; nthreads];
-        for k in 0..qs.len() {
-            for _ in 0..rng.range(1, 3) {
-                batches[rng.below(nthreads)].push(k);
+        for b in batches.iter_mut() {
+            let mut order: Vec<usize> = (0..qs.len()).collect();
+            for i in (1..order.len()).rev() {
+                order.swap(i, rng.below(i + 1));
             }
+            *b = order;
         }
         let bytes = match crate::handles::write_cache(src) {
             Ok(b) => b,
